@@ -26,6 +26,16 @@ func init() {
 			"lane=0", "lane=1", "lane=2", "lane=3", "answer-in-high-byte-of-lane", "answer-in-low-byte-of-lane", "bitmap/no-ones", "ones>=65536", "words>=65536", "gap>=2^31/31-bits"},
 		Families: func(c *mon.Config) []mon.Family {
 			return []mon.Family{
+				{Name: "cold-start", N: 1, Serial: true, Run: func(w *mon.W, _ int) {
+					var pos []int32
+					var cov c02Cov
+					for _, b := range [][]uint64{{^uint64(0)}, {}, {0}, {^uint64(0), ^uint64(0)}, {0, 0}, {1 << 63}, {1}} {
+						if !c02Check(w, b, &pos, &cov) {
+							return
+						}
+					}
+					w.Bucket("cold-start")
+				}},
 				{Name: "lanes16", N: 4 * 2 * 64, Run: c02Lanes},
 				{Name: "two-bit-words", N: 64, Run: c02TwoBit},
 				{Name: "gaps", N: c.Pick(10000, 2000000), Run: c02Gaps},
